@@ -32,7 +32,7 @@ UNIT = VUnit(
         Raw(MODEL), Raw(PAREN),
         # redundant parentheses do not change the expression: `( e )` as a primary is exactly the node e parsed with binding power 0 -- no
         # wrapper node, nothing attached to it here -- and consumes `(`, e and a following `)`
-        Block("paren_primary", within="parse_expression", impl="impl Parser", arm=True,
+        Block("paren_primary", within="parse_expression_unguarded", impl="impl Parser", arm=True,
               anchor=r"Token::LParen =>",
               sig="fn paren_primary(p: &mut P) -> (res: ExprH)",
               requires=["old(p).pos@ < old(p).toks@.len()"],
@@ -44,6 +44,6 @@ UNIT = VUnit(
                         Rw("R9", r"self\.parse_expression_continuation\(", "p.parse_expression_continuation(", min_matches=0),
                         Rw("R2", r"self\.cur\.token", "*p.cur_token()", min_matches=1),
                         Rw("R6", r"self\.emit_error\(\s*self\.cur\.span,.*?\}\],\s*\);", "", min_matches=1)],
-              real_name="Parser::parse_expression (parenthesised primary arm)"),
+              real_name="Parser::parse_expression_unguarded (parenthesised primary arm)"),
     ],
 )
